@@ -32,7 +32,8 @@ MCSeeds == IF Seeded = 0 THEN {} ELSE
     S2("b3", 1, "b1", -1, 0), S2("b3", -1, "b1", 0, 0), S2("b1", 1, "b2", 0, 3),
     S2("b1", 0, "b2", 0, 6)}        \* mega * One: every factor cancelled, a prefix is left (its square root is kilo * One)
 \* foreign units (serialised by another process): a few shapes (quick) or every small one/two-factor unit
-MCQKinds == IF EnvInt("VERIF_KINDS", 4) = 1 THEN {0} ELSE IF EnvInt("VERIF_KINDS", 4) = 2 THEN {0, 1} ELSE {0, 1, 2, 3}
+MCQKinds == IF EnvInt("VERIF_KINDS", 5) = 1 THEN {0} ELSE IF EnvInt("VERIF_KINDS", 5) = 2 THEN {0, 1}
+            ELSE IF EnvInt("VERIF_KINDS", 5) = 4 THEN {0, 1, 2, 3} ELSE {0, 1, 2, 3, 4}
 MCForeignShapes ==
    IF EnvInt("VERIF_FOREIGN", 1) = 1
    THEN {S2("b1", 1, "b2", -1, 0), S2("b1", 1, "b3", -1, 0), S2("b3", 2, "b1", 0, 0), S2("b1", 2, "b2", 0, 3),
